@@ -29,6 +29,7 @@ ENGINE = {
  "C08": "returns of get/replace/replace_with, the values every reader function saw, effect logs of closures and handlers, is_stable, plus a python write-machine oracle (immediate outside stabilise, deferred and composed inside node functions, applied at the end, immediate in handlers)",
  "C09": "per-subscription callback sequences, plus the oracle: Initialised once, Changed exactly on a changed value, nothing after unsubscribe/disallow/drop",
  "C10": "results of read/subscribe/unsubscribe/state-unsubscribe over lifecycle-heavy histories, plus the lifecycle automaton as oracle",
+ "C12": "liveness of every created node after every op (Weak::upgrade in the hook dump vs the model's reference-counting collection) on histories that drop node/var/observer handles in random orders and finally everything, plus the oracle (after the last stabilise every node is released, every closure dropped, no panic or abort)",
  "C13": "fault enumeration: a panic injected at every individual user-function invocation (node, fold, bind, cutoff functions and update handlers) of every stabilise of every generated history, followed by reads, a second stabilise and dropping everything; whole traces compared, plus the oracle (reads refused or fully propagated, second stabilise refuses, drops do not panic or abort)",
  "C19": "limit / reconfiguration / cycle / nested-stabilise / cross-state histories in both build profiles with the full state compared after every op, plus the oracle (HeightLimit exactly when the graph height exceeds the limit in force, set_max_height_allowed exact, cycles/nesting/foreign nodes panic with their diagnostic, handles droppable afterwards)",
  "C11": "the full engine state (hook dump) after every single op, model vs crate, plus the audit (edges symmetric with matching indices, heights, heap = necessary and stale once each, counters, handler counts) evaluated on the crate's dumps",
